@@ -239,6 +239,8 @@ class VG:
         return unk(what)
 
     def get_field(self, path):
+        if path not in self.fields and self.small_array_len(path) is not None:
+            return ('seq_lit', tuple(self.get_field('%s.%d' % (path, i)) for i in range(self.small_array_len(path))))
         if path not in self.fields:
             comps = sorted(k for k in self.fields if k.startswith(path + '.') and k[len(path) + 1:].isdigit())
             if comps and [k[len(path) + 1:] for k in comps] == [str(i) for i in range(len(comps))]:
@@ -246,6 +248,8 @@ class VG:
                 return ('tuple', tuple(self.fields[k] for k in comps))
             if path in self.const_fields:
                 return self.const_fields[path]
+            if self.small_array_len(path) is not None:
+                return ('seq_lit', tuple(self.get_field('%s.%d' % (path, i)) for i in range(self.small_array_len(path))))
             if any(k.startswith(path + '.') for k in self.fields) and self._is_plain_struct_field(path):
                 # a struct-typed field read as a whole after some of its fields were written: the struct of its cells
                 names, adt = self._struct_field_names(path)
@@ -269,6 +273,18 @@ class VG:
         return [f['name'] for f in self.F.adts[ty['adt']]['variants'][0]['fields']], ty['adt']
 
     def set_field(self, path, t, node=None):
+        if '.' not in path[-2:] and self.small_array_len(path) is not None and isinstance(t, tuple) and t:
+            k_ = self.small_array_len(path)
+            for i in range(k_):
+                if t[0] == 'seq_lit' and len(t[1]) == k_:
+                    x = t[1][i]
+                elif t[0] == 'seq_rep':
+                    x = t[1]
+                else:
+                    x = seq_get(t, lit(i, 'i'))
+                self.set_field('%s.%d' % (path, i), x, node)
+            self.fields.pop(path, None)
+            return
         if isinstance(t, tuple) and t and t[0] == 'tuple':
             # a tuple-typed field written as a whole: its components are the cells `path.0`, `path.1`, ..
             for i, x in enumerate(t[1]):
@@ -358,7 +374,17 @@ class VG:
             b = self.place_of(e['base'], fr)
             if b is None:
                 return None
-            return ('elem', b, self.value(e['idx'], fr))
+            iv = self.value(e['idx'], fr)
+            if b[0] == 'field' and isinstance(iv, tuple) and iv[:1] == ('lit',) and isinstance(iv[1], int) and self.small_array_len(b[1]) is not None \
+                    and 0 <= iv[1] < self.small_array_len(b[1]):
+                # `self.regs[1]` of a small fixed-size array field is the cell `regs.1` (the bounds check of the literal index
+                # is recorded once per site)
+                seen_ = self.__dict__.setdefault('_arr_idx_seen', set())
+                if id(e) not in seen_:
+                    seen_.add(id(e))
+                    self.event('index', (('seq_rep', ZERO, lit(self.small_array_len(b[1]), 'i')), iv), e)
+                return ('field', '%s.%d' % (b[1], iv[1]))
+            return ('elem', b, iv)
         return None
 
     def read_place(self, p):
@@ -923,6 +949,10 @@ class VG:
             if isinstance(a, tuple) and a and a[0] == 'ref':
                 a = self.deref(a)
             return some(a)
+        adt = self.F.adts.get(e.get('callee', {}).get('def'))
+        if adt is not None and adt.get('kind') == 'Struct' and e.get('callee', {}).get('krate') == self.F.raw['crate']:
+            # a tuple struct of this crate: its fields are `.0`, `.1`, .. (references stay references: a borrowing newtype)
+            return ('struct', e['callee']['def'], {str(i): a for i, a in enumerate(args)})
         return ('ctor', name, tuple(self.deref(a) for a in args))
 
     def v_closure(self, e, fr):
@@ -1530,8 +1560,24 @@ class VG:
                 if 'adt' in ty:
                     b = self.prefix_bind.get(prefix, {})
                     return {'adt': ty['adt'], 'args': [b.get(a['param'], a) if 'param' in a else a for a in ty.get('args', [])]}
+                if 'array' in ty or 'tuple' in ty:
+                    return ty
                 return None
         return None
+
+    def small_array_len(self, path):
+        """k if the field at `path` is a fixed-size array `[T; k]` with k <= 4 (a handful of registers), else None."""
+        cache = self.__dict__.setdefault('_arr_cache', {})
+        if path not in cache:
+            k = None
+            try:
+                ty = self.child_type('', path)
+            except Exception:
+                ty = None
+            if isinstance(ty, dict) and 'array' in ty and str(ty.get('len_str', '')).strip().isdigit() and int(str(ty['len_str']).strip()) <= 4:
+                k = int(str(ty['len_str']).strip())
+            cache[path] = k
+        return cache[path]
 
     def inline(self, e, fr, target, prefix=None):
         if self.depth >= self.max_depth:
@@ -1539,7 +1585,26 @@ class VG:
         ids = target.param_ids()
         has_self = bool(ids) and ids[0][1] == 'self'
         args = e['args']
-        if has_self:
+        self_value = None
+        if has_self and prefix is None:
+            # `self` is not (part of) the analysed view when the method belongs to a foreign type (an extension trait implemented
+            # for VecDeque) or the receiver is a local value (a borrowing newtype built on the stack): then `self` is an ordinary
+            # parameter -- a reference to the receiver's place, or the receiver's value
+            rp0 = self.place_of(args[0], fr)
+            foreign = getattr(target, 'adt', None) not in self.F.adts
+            if foreign or (rp0 is not None and rp0[0] == 'local') or rp0 is None:
+                rv0 = self.value_noderef(args[0], fr)
+                if not (isinstance(rv0, tuple) and rv0 and rv0[0] == 'selfref'):
+                    if rp0 is not None and rp0[0] in ('field', 'elem', 'payload') :
+                        self_value = ('ref', rp0)
+                    elif isinstance(rv0, tuple) and rv0 and rv0[0] in ('struct', 'ref', 'tuple'):
+                        self_value = rv0
+                    elif foreign and rp0 is not None and rp0[0] == 'local':
+                        self_value = ('ref', rp0)
+        if self_value is not None:
+            prefix = fr.prefix
+            argv = [self.value_noderef(a, fr) for a in args[1:]]
+        elif has_self:
             if prefix is None:
                 rp = self.place_of(args[0], fr)
                 if rp is None:
@@ -1578,6 +1643,9 @@ class VG:
                     fr.locals[pl[1]] = self.note_unknown('mut-borrow-of-local-passed-to-helper', a_node)
         self.depth += 1
         nf = self.push_frame(target, prefix, argv)
+        if self_value is not None:
+            nf.locals[nf.selfid] = self_value
+            nf.selfid = None
         base_pc = list(self.pc)
         ret = self.block_value(target.body, nf)
         if not self.dead:
@@ -2296,6 +2364,8 @@ class VG:
 
 def seq_get(s, i):
     """Element i of a sequence term; the first and the last element have one spelling (front / back)."""
+    if isinstance(s, tuple) and s and s[0] == 'seq_lit' and isinstance(i, tuple) and i[:1] == ('lit',) and isinstance(i[1], int) and 0 <= i[1] < len(s[1]):
+        return s[1][i[1]]
     if i == lit(0, 'i') and isinstance(s, tuple) and s and s[0] in ('in', 'push_back', 'pop_front', 'pop_back', 'phi', 'push_front', 'mu'):
         return ('front', s)
     if isinstance(i, tuple) and i[:2] == ('op', 'isub') and i[2][0] == ('len', s) and i[2][1] == lit(1, 'i'):
